@@ -99,6 +99,21 @@ SYNTHETIC["syn-allsens"] = {
 }
 
 
+SYNTHETIC["syn-names"] = {
+    # names that are substrings of one another (os, services, processes): membership must be by equality
+    "subnets": [1, 1],
+    "topology": [[1, 1, 0], [1, 1, 1], [0, 1, 1]],
+    "sensitive_hosts": {"(2, 0)": 10},
+    "os": ["windows", "windows10", "win"], "services": ["http", "https", "ftp", "sftp"], "processes": ["svc", "svchost"],
+    "exploits": {"e_https": {"service": "https", "os": "windows10", "prob": 0.9, "cost": 1, "access": "user"}},
+    "privilege_escalation": {"pe_svchost": {"process": "svchost", "os": "windows10", "prob": 1.0, "cost": 1, "access": "root"}},
+    "service_scan_cost": 1, "os_scan_cost": 1, "subnet_scan_cost": 1, "process_scan_cost": 1,
+    "host_configurations": {"(1, 0)": {"os": "windows10", "services": ["https", "sftp"], "processes": ["svchost"]},
+                            "(2, 0)": {"os": "win", "services": ["http"], "processes": ["svc"]}},
+    "firewall": {"(0, 1)": ["https"], "(1, 0)": [], "(1, 2)": ["http", "https"], "(2, 1)": ["sftp"]},
+}
+
+
 def base_documents(tree, tier):
     import yaml
     docs = {}
@@ -266,6 +281,10 @@ def rules():
         return any(a != b and t[a][b] == 1 and t[b][a] == 0 for a in range(len(t)) for b in range(len(t)))
     out.append(R("firewall-missing-reverse-rule-of-one-way-link", missing_reverse, has_oneway))
     out.append(R("firewall-rule-not-list", lambda d: d["firewall"].__setitem__(first_key(d["firewall"]), "ssh")))
+    for nm, bad in (("null", None), ("empty-dict", {}), ("empty-string", ""), ("zero", 0), ("false", False), ("tuple-like-str", "[]")):
+        out.append(R(f"firewall-rule-{nm}", lambda d, bad=bad: d["firewall"].__setitem__(first_key(d["firewall"]), copy.deepcopy(bad))))
+        out.append(R(f"host-firewall-rule-{nm}", lambda d, bad=bad: d[hc][first_key(d[hc])].__setitem__(
+            "firewall", {first_key(d[hc]): copy.deepcopy(bad)})))
     out.append(R("firewall-rule-duplicated-service", lambda d: d["firewall"].__setitem__(
         first_key(d["firewall"]), [d["services"][0], d["services"][0]])))
     out.append(R("firewall-rule-unknown-service", lambda d: d["firewall"].__setitem__(first_key(d["firewall"]), ["nope"])))
